@@ -59,3 +59,13 @@ Theorem C15_access_discipline :
   /\ (forall first ws, ws <> [] -> ~ wait_chain lock_order first first ws) /\ reacquire_count = 0%N.
 Proof. exact access_discipline. Qed.
 Print Assumptions C15_access_discipline.
+
+(* code shape, regenerated from the source on every run (see theories/SkelFinish.v) *)
+From Coq Require Import String.
+From GT Require Import SkelFinish.
+From GTgen Require Import Params.
+Local Open Scope string_scope.
+Theorem C15_client_finish_shape : skel_tunnelClientStream_finishStream =
+  ["call done.CompareAndSwap"; "defer call cancel"; "call ch.removeStream"; "defer call receiver.close"; "call metaMu.Lock"; "defer call metaMu.Unlock"; "set trailers"; "set gotHeaders"; "close gotHeadersSignal"; "close doneSignal"].
+Proof. exact tunnelClientStream_finishStream_shape. Qed.
+Print Assumptions C15_client_finish_shape.
